@@ -17,9 +17,17 @@ func main() {
 	prop := flag.String("prop", "", "property id")
 	tier := flag.String("tier", "quick", "quick|thorough")
 	replay := flag.String("replay", "", "replay file")
+	extractOnly := flag.Bool("extract", false, "regenerate lean/GqlModel/Gen from /repo and exit")
 	flag.Parse()
 	if *worker {
 		impl.WorkerLoop()
+		return
+	}
+	if *extractOnly {
+		if msg := props.RunExtractAll(); msg != "" {
+			fmt.Fprintln(os.Stderr, "extract:", msg)
+			os.Exit(2)
+		}
 		return
 	}
 	if t := os.Getenv("VERIF_TIER"); t != "" && *tier == "" {
